@@ -71,6 +71,7 @@ fn drive(args: &[String]) {
     "c13" => c13::drive(seed, out, thorough),
     "c11" => c11::drive(vectors.expect("--vectors"), opt(args, "--vectors2"), seed, out, thorough),
     "testrun" => testrun::drive(vectors.expect("--vectors"), out),
+    "project" => projpaths::drive(vectors.expect("--vectors"), out),
     "strcase" => strcase::drive(vectors.expect("--vectors"), out),
     "c08" => c08::drive(vectors.expect("--vectors"), seed, out, thorough),
     "c09" => c09::drive(vectors.expect("--vectors"), seed, out, thorough),
